@@ -359,7 +359,12 @@ impl FromStr for StaticDirective {
                     }
                 }));
             };
-            let level = part1.parse()?;
+            // `foo=` enables every level for `foo`, as in `EnvFilter` and `env_logger`.
+            let level = if part1.is_empty() {
+                LevelFilter::TRACE
+            } else {
+                part1.parse()?
+            };
             return Ok(Self {
                 level,
                 field_names,
